@@ -33,7 +33,9 @@ SET_KINDS = ('Set', 'TreeSet')
 def bounds(tier):
     return ('quick: all 22 families x both implementations, 4-key universe (256 ordered subset pairs) '
             'x 18 x 18 operand forms (incl. subclass instances, ghost operands that the operation has to load, one-shot iterators, equal-but-distinct key objects) x up to 11 operations, plus the extreme universe for set/tree '
-            'operands; thorough: 5-key universe')
+            'operands; deep thinned tree operands: BTree / TreeSet of 12 keys at node sizes 2/2 (3+ levels) with every contiguous key run deleted '
+            '(ascending and descending) x 4 Set/Bucket operands x 3 module functions x both sides, families II OO LF; '
+            'thorough: 5-key universe, deep thinned operands with 16 keys for all families')
 
 
 def required_guards(tier):
